@@ -263,6 +263,20 @@ def run(ctx):
     ctx.ob("R-REG", "C08.8", "nessai.flows", "every container of sub-modules stored on a torch module of the package was examined", True, f"{n_reg} registered containers (nn.ModuleList / Sequential), {n_cont} plain containers of modules")
     ctx.require(n_reg + n_cont >= 1, "no container of sub-modules found in the package's torch modules (MLP._hidden_layers expected)")
     ctx.floor("C08.8", 1)
+
+    # ---- C08.9 a generated point keeps the density that was computed for it ---------------------------------------------
+    # the proposals return parallel arrays (points, latent points, densities, Jacobians, per-proposal density rows): the
+    # density attached to row i is the density *of* row i only while every mask, slice and concatenation is applied to all of
+    # them together (R-PAIR; the same scan as C09.6 / C03.4, over the proposal modules)
+    from ..rules import pair as _pair8
+    from .C09 import PAIR_MODULES as _PM8
+
+    def _ob8(f_, node_, ok_, detail_):
+        ctx.ob("R-PAIR", "C08.9", f_, "arrays describing the same rows (points, latent points, densities, Jacobians) are filtered and indexed together", ok_, detail_, node=node_)
+
+    nj8, _ni8 = _pair8.scan(prog, [f_ for f_ in prog.all_functions if f_.module.name in _PM8], _ob8)
+    ctx.require(nj8 >= 8, f"only {nj8} joint filters found")
+    ctx.floor("C08.9", 8)
     ctx.assumptions += ["invertibility and normalisation of the glasflow transforms, float tolerances and trained-weight behaviour are not decided", "direction table of map names (sa/rules/sign.py): forward/rescale/to_prime/_transform are data->latent, inverse/inverse_rescale/from_prime are latent->data"]
 
 
